@@ -4,6 +4,7 @@ package gram
 
 import (
 	"fmt"
+	"strconv"
 	"strings"
 	"time"
 	"unicode/utf8"
@@ -322,8 +323,16 @@ func RefPayload(s string) ([]byte, Tri) {
 }
 
 // RenderPayload: every byte as \xHH (mode 0), or printable ASCII literally where that is unambiguous (mode 1),
-// or octal escapes (mode 2).
+// or octal escapes (mode 2), or as Go renders a string literal (modes 3 and 4: \\u / \\U escapes).
 func RenderPayload(b []byte, mode int) string {
+	switch mode {
+	case 3: // Go string-literal rendering: printable runes literally, other valid runes as \u / \U, stray bytes as \x
+		q := strconv.Quote(string(b))
+		return q[1 : len(q)-1]
+	case 4: // the same restricted to ASCII: every non-ASCII rune as \u / \U
+		q := strconv.QuoteToASCII(string(b))
+		return q[1 : len(q)-1]
+	}
 	var sb strings.Builder
 	for _, c := range b {
 		switch {
